@@ -24,6 +24,7 @@ ASSUMPTIONS = ["a single application of the verb is performed by the real interp
                "iteration adverbs are run only with verbs / predicates that terminate within 200 steps in the model"]
 MIN_COUNTS = {"quick": {"nontrivial": 3500, "verb_applications_by_model": 7000}, "thorough": {"nontrivial": 6500, "verb_applications_by_model": 13000}}
 CASE_TIMEOUT = 300
+MEM_LIMIT_GB = 6
 
 DY_OPS = ["+", "-", "*", "%", "&", "|", ",", "=", "<", ">"]
 DY_VERBS = [("op", o) for o in DY_OPS] + [("lam", "{x%sy}" % o) for o in DY_OPS] + \
